@@ -315,13 +315,13 @@ def elemIndex (h : Heap) (list indexes : Slice) (index : Int) : Option Int → I
   | some k => resolveIdx h list indexes k
   | none => index
 
-/-- The element loop of `assignVal` for an indexed array value; a "bad array subscript" error
-    (`break`) ends it. -/
+/-- The element loop of `assignVal` for an indexed array value; an element with a "bad array
+    subscript" is skipped (`continue`, the running index unchanged). -/
 def assignElems (g : Grows) : Heap → Slice → Slice → Int → List (Option Int × Bytes) →
     Option (Heap × Slice × Slice)
   | h, list, indexes, _, [] => some (h, list, indexes)
   | h, list, indexes, index, e :: rest =>
-    if elemIndex h list indexes index e.1 < 0 then some (h, list, indexes)
+    if elemIndex h list indexes index e.1 < 0 then assignElems g h list indexes index rest
     else
       match setIndexedElem g h list indexes (elemIndex h list indexes index e.1).toNat e.2 with
       | none => none
